@@ -236,12 +236,40 @@ impl<'tcx> Cx<'tcx> {
                 let (prov, off) = ptr.into_raw_parts();
                 let alloc_id = prov.alloc_id();
                 if let ty::Ref(_, inner, _) = t.kind() {
+                    let mut done = false;
                     if let ty::Array(elem, n) = inner.kind() {
                         if *elem == self.tcx.types.u8 {
                             if let Some(n) = n.try_to_target_usize(self.tcx) {
                                 if let Some(b) = self.read_bytes(alloc_id, off.bytes(), n) {
                                     out.push(',');
                                     self.bytes_json(&b, out);
+                                    done = true;
+                                }
+                            }
+                        }
+                    }
+                    if !done {
+                        // any other sized pointee (tables of small structs, arrays whose length is a const expression)
+                        let env = TypingEnv::fully_monomorphized();
+                        if let Ok(inner_n) = self.tcx.try_normalize_erasing_regions(env, ty::Unnormalized::new(*inner)) {
+                            if let Ok(layout) = self.tcx.layout_of(env.as_query_input(inner_n)) {
+                                let sz = layout.size.bytes();
+                                if sz <= 65536 {
+                                    if let Some(b) = self.read_bytes(alloc_id, off.bytes(), sz) {
+                                        out.push_str(",\"raw\":[");
+                                        for (i, x) in b.iter().enumerate() {
+                                            if i > 0 {
+                                                out.push(',');
+                                            }
+                                            let _ = write!(out, "{}", x);
+                                        }
+                                        out.push(']');
+                                        if let ty::Array(elem, _) = inner_n.kind() {
+                                            if let Ok(l) = self.tcx.layout_of(env.as_query_input(*elem)) {
+                                                let _ = write!(out, ",\"elem_size\":{}", l.size.bytes());
+                                            }
+                                        }
+                                    }
                                 }
                             }
                         }
@@ -945,6 +973,36 @@ impl<'tcx> Cx<'tcx> {
         let tcx = self.tcx;
         let ty::Array(elem, n) = t.kind() else { return };
         let ty::Ref(_, inner, _) = elem.kind() else { return };
+        // [&[u8; K]; N]: thin pointers to fixed-size byte arrays
+        if let ty::Array(e2, k) = inner.kind() {
+            if *e2 == tcx.types.u8 {
+                let (Some(n), Some(k)) = (n.try_to_target_usize(tcx), k.try_to_target_usize(tcx)) else { return };
+                let ConstValue::Indirect { alloc_id, offset } = v else { return };
+                use rustc_middle::mir::interpret::GlobalAlloc;
+                let Some(GlobalAlloc::Memory(a)) = tcx.try_get_global_alloc(alloc_id) else { return };
+                let a = a.inner();
+                let base = offset.bytes();
+                let mut items: Vec<Vec<u8>> = Vec::new();
+                for i in 0..n {
+                    let off = base + i * 8;
+                    let prov = a.provenance().ptrs().iter().find(|(o, _)| o.bytes() == off);
+                    let Some((_, p)) = prov else { return };
+                    let raw = a.inspect_with_uninit_and_ptr_outside_interpreter(off as usize..(off + 8) as usize);
+                    let addr = u64::from_le_bytes(raw[0..8].try_into().unwrap());
+                    let Some(b) = self.read_bytes(p.alloc_id(), addr, k) else { return };
+                    items.push(b);
+                }
+                out.push_str(",\"strs\":[");
+                for (i, b) in items.iter().enumerate() {
+                    if i > 0 {
+                        out.push(',');
+                    }
+                    esc(&String::from_utf8_lossy(b), out);
+                }
+                out.push(']');
+            }
+            return;
+        }
         let is_str = matches!(inner.kind(), ty::Str) || matches!(inner.kind(), ty::Slice(e) if *e == tcx.types.u8);
         if !is_str {
             return;
